@@ -96,6 +96,8 @@ Match(r, e, prevErr) ==
     /\ ("registry" \in Focus) => NoRb(NodesOf(e.post.nodes)) = NoRb(r.nodes)
     \* C05
     /\ ("version" \in Focus) => (e.post.ver = r.ver /\ e.post.proto = r.proto)
+    \* (the rules in force show in what happens to a message: handled, or refused with which class of error)
+    /\ ("outcomeKind" \in Focus) => (e.out.k = r.out.k /\ (e.out.k = "err" => e.out.cls \in r.out.cls))
     /\ ("gate" \in Focus) => ((e.out.k = "err" /\ e.out.cls = "Unsupported")
                                <=> (r.out.k = "err" /\ r.out.cls = {"Unsupported"}))
     \* C06: the reaction writes, in order
